@@ -1915,7 +1915,6 @@ fn allow_section_offset(name: constants::DwAt, version: u16) -> bool {
         | constants::DW_AT_stmt_list
         | constants::DW_AT_string_length
         | constants::DW_AT_return_addr
-        | constants::DW_AT_start_scope
         | constants::DW_AT_frame_base
         | constants::DW_AT_macro_info
         | constants::DW_AT_macros
@@ -1925,6 +1924,9 @@ fn allow_section_offset(name: constants::DwAt, version: u16) -> bool {
         | constants::DW_AT_vtable_elem_location
         | constants::DW_AT_ranges => true,
         constants::DW_AT_data_member_location => version == 2 || version == 3,
+        // A range list offset only in DWARF 3; DWARF 2 has no range lists, and from
+        // DWARF 4 on `DW_FORM_data4/8` are always constants (a scope start offset).
+        constants::DW_AT_start_scope => version == 3,
         _ => false,
     }
 }
